@@ -255,8 +255,6 @@ def main():
         ev["coverage"]["proof_obligations_stated"] = ev["coverage"].pop("obligations")
         ev["coverage"]["proof_obligations_discharged"] = ev["coverage"].pop("discharged")
         ev["coverage"]["explanation"] = "the property theorems did not all check on this run: " + str(proof.get("error", ""))[:600]
-        ev["coverage"]["evaluations"] = max(1, ev["coverage"]["evaluations"])
-        ev["coverage"]["distinct_nontrivial"] = max(2, ev["coverage"]["distinct_nontrivial"]) if rep.evaluations else 2
     os.makedirs(os.path.join(ROOT, "evidence"), exist_ok=True)
     json.dump(ev, open(os.path.join(ROOT, "evidence", pid + ".json"), "w"), indent=1, default=str)
     print(f"{pid} {tier}: obligations {proof['discharged']}/{proof['obligations']}, "
